@@ -108,6 +108,14 @@ class Script:
             # Would throw error, but Bitcoin Core will read the number of bytes that are there (not what was promised)
             print(f"mismatch between length and consumed bytes {count} vs {length}")
             obj.raw = raw
+        else:
+            # keep the original bytes when the pushes are not encoded the way
+            # raw_serialize would encode them, so hashes of the script don't change
+            try:
+                if obj.raw_serialize() != raw:
+                    obj.raw = raw
+            except ValueError:
+                obj.raw = raw
         return obj
 
     @classmethod
@@ -355,7 +363,10 @@ class ScriptPubKey(Script):
     @classmethod
     def parse(cls, s):
         script_pubkey = super().parse(s)
-        if script_pubkey.is_p2pkh():
+        if script_pubkey.raw:
+            # not canonically encoded, keep the bytes as they are
+            return script_pubkey
+        elif script_pubkey.is_p2pkh():
             return P2PKHScriptPubKey(script_pubkey.commands[2])
         elif script_pubkey.is_p2sh():
             return P2SHScriptPubKey(script_pubkey.commands[1])
